@@ -1,6 +1,7 @@
 package main
 
 import (
+	"fmt"
 	"strconv"
 	"regexp"
 	"sync/atomic"
@@ -280,6 +281,14 @@ func c20(args []string) {
 				ev.Acc4, ev.Acc7, ev.Acc1005, ev.Acc1006 = e4 == nil, e7 == nil, e5 == nil, e6 == nil
 				handler.Analyse(m)
 				ev.Attempt = attemptOf(m)
+				// which decoder a type is handed to is not a matter of the log level (a configuration value: Warn, Error and
+				// levels in between included)
+				lv3 := []slog.Level{slog.LevelWarn, slog.LevelError, slog.LevelInfo, slog.Level(2), slog.Level(-8)}[t%5]
+				m3, _ := handler.New(start, lv3).GetMessage(frame)
+				handler.Analyse(m3)
+				if a3 := attemptOf(m3); a3 != ev.Attempt {
+					ev.Attempt = fmt.Sprintf("%s at level %v but %s at level %v", ev.Attempt, level, a3, lv3)
+				}
 				d1 := m.String()
 				// info-level display of a second message from the same frame
 				h2 := handler.New(start, slog.LevelInfo)
